@@ -124,6 +124,10 @@ func (mon) Plan(prop, tier string, seed int64) []drv.Shard {
 			p := parts
 			parts = 4
 			add("dwell", 0, false)
+			parts = 2
+			add("bigflood", 0, false)
+			parts = 1
+			add("panicnil", 0, false, "GODEBUG=panicnil=1")
 			parts = p
 		}
 		if thorough {
@@ -386,6 +390,20 @@ func dwellScenarios(seed int64, ms []int) []Scenario {
 			}
 			out = append(out, Scenario{LaneSize: ls, QueueSize: qs, TimeoutMs: tmo, Warmup: warm, Pins: pins, Producers: [][]PushSpec{pushes}, Cancel: CancelPlan{Kind: "none"}, PostPush: 1, DwellMs: d, Pollers: i % 2})
 		}
+		// workers that have been idle for the whole dwell, then one lane's worker is pinned and everything
+		// is pushed to that lane: the long-idle workers must take it over (with and without a warm-up)
+		for i, cfg := range [][2]int{{2, 1}, {3, 0}, {4, 2}} {
+			ls, qs := cfg[0], cfg[1]
+			var warm []PushSpec
+			for k := 0; k < ls*i; k++ {
+				warm = append(warm, PushSpec{Lane: k % ls, Task: TaskSpec{Kind: kinds[k%3]}})
+			}
+			var pushes []PushSpec
+			for k := 0; k < qs+2; k++ {
+				pushes = append(pushes, PushSpec{Lane: 0, Task: TaskSpec{Kind: "instant"}})
+			}
+			out = append(out, Scenario{LaneSize: ls, QueueSize: qs, TimeoutMs: 3600000, Warmup: warm, Pins: []int{0}, Producers: [][]PushSpec{pushes}, Cancel: CancelPlan{Kind: "none"}, PostPush: 1, DwellMs: d})
+		}
 	}
 	for i := range out {
 		out[i].Seed = seed + int64(i)
@@ -413,6 +431,65 @@ func floodScenarios(seed int64, n int) []Scenario {
 			prods = append(prods, pushes)
 		}
 		out = append(out, Scenario{LaneSize: ls, QueueSize: qs, TimeoutMs: 3600000, Producers: prods, Cancel: CancelPlan{Kind: "none"}, PostPush: 1, NoHook: rep%2 == 0})
+	}
+	// hundreds of panicking tasks among the others (nobody polls Status or reads anything else the lane
+	// may offer): the workers keep serving, and the lane still ends cleanly
+	for rep, cfg := range [][2]int{{2, 1}, {1, 0}} {
+		ls, qs := cfg[0], cfg[1]
+		var pushes []PushSpec
+		for i := 0; i < n/4; i++ {
+			ts := TaskSpec{Kind: "instant"}
+			if i%3 != 2 {
+				ts = TaskSpec{Kind: "panic", Panic: []string{"string", "error", "int", "struct", "pointer"}[i%5]}
+			}
+			pushes = append(pushes, PushSpec{Lane: i % ls, Task: ts})
+		}
+		out = append(out, Scenario{LaneSize: ls, QueueSize: qs, TimeoutMs: 3600000, Producers: [][]PushSpec{pushes}, Cancel: CancelPlan{Kind: "none"}, PostPush: 1, NoHook: rep%2 == 0})
+	}
+	for i := range out {
+		out[i].Seed = seed + int64(i)
+	}
+	return out
+}
+
+// bigFloodScenarios (C14): more than 2^16 tasks through single workers (a worker that is recycled,
+// a counter that wraps, only after that many), a third of them panicking in one of the scenarios.
+func bigFloodScenarios(seed int64, n int) []Scenario {
+	var out []Scenario
+	for rep, cfg := range [][2]int{{1, 1}, {2, 0}} {
+		ls, qs := cfg[0], cfg[1]
+		var pushes []PushSpec
+		for i := 0; i < n*ls; i++ {
+			ts := TaskSpec{Kind: "instant"}
+			if rep == 1 && i%3 == 0 {
+				ts = TaskSpec{Kind: "panic", Panic: []string{"string", "int", "pointer"}[i%3]}
+			}
+			pushes = append(pushes, PushSpec{Lane: i % ls, Task: ts})
+		}
+		out = append(out, Scenario{LaneSize: ls, QueueSize: qs, TimeoutMs: 3600000, Producers: [][]PushSpec{pushes}, Cancel: CancelPlan{Kind: "none"}, PostPush: 1, NoHook: true})
+	}
+	for i := range out {
+		out[i].Seed = seed + int64(i)
+	}
+	return out
+}
+
+// panicNilScenarios (C14): tasks that call panic(nil). The shard runs with GODEBUG=panicnil=1 (what a
+// main module declaring go < 1.21 gets), where recover() then returns nil: the worker must keep
+// serving all the same.
+func panicNilScenarios(seed int64) []Scenario {
+	var out []Scenario
+	for _, cfg := range [][2]int{{1, 0}, {2, 1}, {3, 2}} {
+		ls, qs := cfg[0], cfg[1]
+		var pushes []PushSpec
+		for i := 0; i < 6*ls; i++ {
+			ts := TaskSpec{Kind: "instant"}
+			if i%2 == 0 {
+				ts = TaskSpec{Kind: "panic", Panic: "nilvalue"}
+			}
+			pushes = append(pushes, PushSpec{Lane: i % ls, Task: ts})
+		}
+		out = append(out, Scenario{LaneSize: ls, QueueSize: qs, TimeoutMs: 3600000, Producers: [][]PushSpec{pushes}, Cancel: CancelPlan{Kind: "none"}, PostPush: 1, Pollers: 1})
 	}
 	for i := range out {
 		out[i].Seed = seed + int64(i)
@@ -673,6 +750,10 @@ func (mn mon) Run(sh drv.Shard, c *drv.Ctx) {
 		if sh.Tier == "thorough" {
 			list = append(list, floodScenarios(sh.Seed+7, 20000)...)
 		}
+	case "bigflood":
+		list = bigFloodScenarios(sh.Seed, 70000)
+	case "panicnil":
+		list = panicNilScenarios(sh.Seed)
 	case "dwell":
 		list = dwellScenarios(sh.Seed, []int{1300})
 		if sh.Tier == "thorough" {
